@@ -40,7 +40,7 @@ TreeList(t) == SetToSeq({[p |-> q, n |-> t[q]] : q \in DOMAIN t})
 Canon == IF OpSet = "all"
          THEN {<<"a">>, <<"b">>, <<"c">>, <<"a", "b">>, <<"a", "c">>, <<"b", "a">>, <<"b", "b">>,
                <<"a", "b", "c">>, <<"b", "b", "c">>, <<"c", "a">>, <<"a", "b", "c", "a">>, <<"a", "a">>, <<"a", "d">>}
-         ELSE {<<"a">>, <<"c">>, <<"a", "b">>, <<"b", "b">>, <<"a", "b", "c">>}
+         ELSE {<<"a">>, <<"c">>, <<"a", "b">>}
 Spell(k, c) == CASE k = 1 -> c
                  [] k = 2 -> IF Len(c) = 1 THEN <<".", "">> \o c ELSE <<c[1], "">> \o Tail(c)
                  [] k = 3 -> c \o <<"">>
@@ -48,7 +48,8 @@ Spell(k, c) == CASE k = 1 -> c
                  [] k = 5 -> <<"">> \o c
 Spellings == IF OpSet = "all" THEN 1..5 ELSE {1, 3}
 Targets == {Spell(k, c) : k \in Spellings, c \in Canon}
-Sources == {<<"a">>, <<"c">>, <<"b", "a">>, <<"b", "b">>, <<"a", "b">>, <<"b", "b", "c">>, <<".", "a", "", "c">>}
+Sources == IF OpSet = "all" THEN {<<"a">>, <<"c">>, <<"b", "a">>, <<"b", "b">>, <<"a", "b">>, <<"b", "b", "c">>, <<".", "a", "", "c">>}
+           ELSE {<<"a">>, <<"c">>, <<"b", "a">>, <<"a", "b">>}
 
 Op1(op, p)       == [op |-> op, p |-> p, q |-> <<>>, c |-> Empty, f |-> <<>>]
 OpC(op, p, c)    == [op |-> op, p |-> p, q |-> <<>>, c |-> c, f |-> <<>>]
@@ -63,6 +64,7 @@ Writes == {"write"}
 \* operations that would open a fifo block for ever: never generated
 OpensFifo(t, segs) == LET w == Resolve(t, segs, TRUE) IN w.r = "node" /\ t[w.p].k = "p"
 Blocks(t, o) ==
+    \/ Escapes(t, o.p) \/ (o.op \in {"copy", "rename"} /\ Escapes(t, o.q))      \* would act outside the private root
     \/ o.op \in Writes \cup {"oopen", "read", "copy", "remove_dir_all", "read_dir"} /\ OpensFifo(t, o.p)
     \/ o.op = "copy" /\ OpensFifo(t, o.q)
 Ops(t) == {o \in {Op1(op, p) : op \in Unary, p \in Targets}
